@@ -365,6 +365,15 @@ func (idx *RoaringMetadataIndex) queryNumeric(bsiIndex *bsi.BSI, filter Filter) 
 		result.And(compareNumeric(bsiIndex, bsi.LE, maxVal))
 		return result, nil
 
+	case OpNotRange: // Has the field with a value outside [value, value2]
+		maxVal, err := toInt64(filter.Value2)
+		if err != nil {
+			return nil, err
+		}
+		result := compareNumeric(bsiIndex, bsi.LT, value)
+		result.Or(compareNumeric(bsiIndex, bsi.GT, maxVal))
+		return result, nil
+
 	default:
 		return nil, fmt.Errorf("unsupported operator for numeric field: %s", filter.Operator)
 	}
@@ -440,6 +449,9 @@ const (
 
 	// Range operators
 	OpRange Operator = "range" // Within a range [Value, Value2]
+
+	// OpNotRange is the negation of OpRange (produced by Not): has the field with a value outside [Value, Value2]
+	OpNotRange Operator = "not_range"
 
 	// Existence operators
 	OpExists    Operator = "exists"     // Field exists (has any value)
@@ -550,6 +562,10 @@ func Not(filter Filter) Filter {
 		filter.Operator = OpNotExists
 	case OpNotExists:
 		filter.Operator = OpExists
+	case OpRange:
+		filter.Operator = OpNotRange
+	case OpNotRange:
+		filter.Operator = OpRange
 	}
 	return filter
 }
